@@ -45,6 +45,7 @@ class World:
         self.rng = random.Random(seed)
         self.dll = dll
         self.bus = Bus(self.sim, random.Random(seed ^ 0x9E3779B9), latency, zero_prob)
+        self.bus.ts_mode = random.Random(seed ^ 0x7157).choice(['epoch'] * 6 + ['zero', 'zero', 'relative', 'relative'])
         self.stacks = []
         self.deliv = collections.defaultdict(list)     # listener key -> [(t, prio, pgn, sa, bytes)]
         self.calls = []                                # (t_call, t_ret, what, result|exc)
